@@ -188,7 +188,6 @@ var c06Abs = map[[2]int]string{}
 // (the check has failed by then) so that a broken implementation does not take hours to report
 var c06Failing, c06MaxFailing = 0, 24
 
-
 func c06Line(o *out, entry string, nc, ns, k int, mode, label string, occ int, ob c06Obs) {
 	abs, ok := c06Abs[[2]int{nc, ns}]
 	if !ok {
